@@ -125,7 +125,7 @@ def run_property(pid, tier, seed):
         scratch.remove_scratch(sc)
     wall = time.time() - t0
     evidence.write(pid, tier, seed, wall, obligations, len(violations),
-                   known_hits, spec.get("assumptions", [spec.get("note", "")] if spec.get("note") else ["see MANIFEST level_note"]),
+                   known_hits, props.assumptions_for(pid),
                    extra=dict(native_validations=native_validations,
                               outside_the_claim=spec.get("outside", []),
                               tools=props.TOOLS))
